@@ -2,10 +2,12 @@ package rules
 
 import (
 	"fmt"
+	"go/types"
 	"sort"
 
 	"golang.org/x/tools/go/ssa"
 
+	"bdcheck/internal/ir"
 	"bdcheck/internal/load"
 	"bdcheck/internal/report"
 )
@@ -34,6 +36,13 @@ func DumpRoles(p *load.Program) {
 	fmt.Println("WorkerFns", set(s.WorkerFns))
 	if s.LoopNode != nil {
 		fmt.Println("LoopNode", e.C.Render(s.LoopNode), "WorkerNode", e.C.Render(s.WorkerNode))
+	}
+	for _, f := range e.RepoFuncsSorted() {
+		if f.Package() == e.P.Pkg(schedRel) && f.Signature.Results().Len() >= 1 && len(f.Blocks) >= 1 && f.Parent() == nil {
+			if t, ok := f.Signature.Results().At(0).Type().Underlying().(*types.Basic); ok && t.Kind() == types.Bool {
+				fmt.Println("  bool fn", fn(f), "blocks", len(f.Blocks), "uniqueSite", ir.UniqueSite(f) != nil, "callsites", len(e.StaticCallSites(f)))
+			}
+		}
 	}
 	g := e.graphRoles()
 	fmt.Println("graph: AddEdge", fn(g.AddEdge), "EdgeLoop", fn(g.EdgeLoop), "Setup", fn(g.Setup), "HasCycle", fn(g.HasCycle), "Reset", fn(g.Reset), "Pred", g.Pred, "Succ", g.Succ, "AllNodes", g.AllNodes, "ok", g.ok, g.why)
